@@ -31,6 +31,34 @@ type Prog struct {
 	Copies  int    `json:"copies"`  // > 1: that many calls of the same source, each in its own environment, under ONE context, sharing the host channel "cq" (capacity 1)
 	Feed    string `json:"feed"`    // with copies: the host "drain"s or "fill"s the shared channel for a few milliseconds, then stops; then the context is cancelled
 	Threads int    `json:"threads"` // script goroutines that may log one more effect before they observe
+	Crowd   int    `json:"crowd"`   // > 0: another run of the process, never cancelled, keeps that many script goroutines parked on a channel meanwhile
+	DelayMs int    `json:"delay_ms"` // the external cancellation (gate -1) arrives after that many milliseconds instead of 30 (deep recursion)
+}
+
+// crowd starts a run that is never cancelled and parks n script goroutines on a channel; the returned function lets them go.
+func crowd(n int) func() {
+	e := env.NewEnv()
+	park := make(chan int64)
+	started := make(chan int64, n)
+	e.Define("park", park)
+	e.Define("started", started)
+	e.Define("n", int64(n))
+	// the crowd's own run is bounded: if a changed interpreter makes it wait (a cap on goroutines, say) it is given up after 3 s and whatever is parked by then stays parked
+	ctx, stop := context.WithTimeout(context.Background(), 3*time.Second)
+	go func() {
+		defer func() { recover() }()
+		vm.ExecuteContext(ctx, e, nil, "for i = 0; i < n; i++ {\n go func() {\n  started <- 1\n  <-park\n }()\n}")
+	}()
+	deadline := time.After(3 * time.Second)
+wait:
+	for i := 0; i < n; i++ {
+		select {
+		case <-started:
+		case <-deadline:
+			break wait
+		}
+	}
+	return func() { close(park); stop() }
 }
 
 type Obs struct {
@@ -168,6 +196,9 @@ func one(p Prog, k int) Obs {
 	if p.Copies > 1 {
 		return shared(p, k)
 	}
+	if p.Crowd > 0 {
+		defer crowd(p.Crowd)()
+	}
 	ctx, cancel := context.WithCancel(context.Background())
 	r := &run{k: int64(k), cancel: cancel}
 	if k < 0 {
@@ -226,7 +257,11 @@ func one(p Prog, k int) Obs {
 	}()
 	o := Obs{ID: p.ID, Gate: k, Allowed: p.Threads}
 	if k < 0 {
-		time.Sleep(30 * time.Millisecond)
+		if p.DelayMs > 0 {
+			time.Sleep(time.Duration(p.DelayMs) * time.Millisecond)
+		} else {
+			time.Sleep(30 * time.Millisecond)
+		}
 		if atomic.CompareAndSwapInt32(&r.done, 0, 1) {
 			r.kind.Store("external")
 			r.t0.Store(time.Now())
